@@ -3,7 +3,7 @@
 (* must change total supply (bank GetSupply) exactly as the matching Ledger      *)
 (* action says; bank supply must equal the sum of ALL account balances after     *)
 (* every operation; a rejected message must leave the bank untouched.            *)
-EXTENDS Ledger, Json, TLC
+EXTENDS Ledger, Json, TLC, TraceLib
 CONSTANT KNOWN
 Trace == ndJsonDeserialize("trace.ndjson")
 VARIABLES l, viol, hist, bank, disp, dust
@@ -77,8 +77,7 @@ Step ==
                               IN IF e.h % 6 = 0 THEN (IF Len(added) >= 3 THEN Tail(added) ELSE added) \o << [t0 |-> t, minted |-> Zero] >>
                                  ELSE added
                          ELSE ivals
-        /\ viol' = IF reset \/ Cardinality(viol) >= 40 THEN viol
-                   ELSE viol \cup { <<l, c>> : c \in Check(e) }
+        /\ viol' = IF reset THEN viol ELSE AddViol(viol, l, Check(e))
         /\ l' = l + 1
 Spec == Init /\ [][Step]_tvars
 Done == (l = Len(Trace) + 1) => PrintT(<<"VIOLS", ToJson(viol)>>)
